@@ -1512,6 +1512,18 @@ def _leaf_class(case_feats):
 
 def _evaluate(case, c, ty, ren, cc, Ser):
     prop = case["prop"]
+    if prop == "same_name_twice":
+        # two DIFFERENT families of dataclasses with identical module + qualified names, decoded one after the other in one process
+        # (a model module that was re-generated and re-imported; classes built by a factory): nothing may be keyed by name
+        tag = "sn%d" % (abs(hash(json.dumps(case, sort_keys=True, default=str))) % 10**9)
+        for which in ("first", "second", "first"):
+            sub = dict(case[which], prop="decode_encode")
+            c2, ty2, ren2 = build_from_decls(tag, sub["decls"], sub.get("ty"))
+            r = _evaluate(sub, c2, ty2, ren2, cc, Ser)
+            if r is not None:
+                return {"class": "same-name-classes-confused" if which != "first" or r["class"] != "roundtrip-decode-fails" else r["class"],
+                        "observed": f"[{which}] {r['class']}: {str(r['observed'])[:260]}", "expected": r["expected"]}
+        return None
     if prop in ("decode_encode", "unsupported_leaf"):
         T = c.pytype(ty)
         j = case["json"]
@@ -1821,6 +1833,17 @@ def oracle(seed: int = 16, scale: float = 1.0) -> dict:
                 j[victim] = {"not": "a scalar"}        # present but undecodable (int(dict) raises; str()/bool() would coerce)
             cases.append({"prop": "union_variant", "decls": c.decls, "ty": ty, "json": j, "expect": "error",
                           "variant": None, "fail_class": "union-disc-retried"})
+    # 4b. two families of classes that share their names (and module) but not their fields / key maps
+    for ci in range(max(3, int(round(40 * scale)))):
+        subs = []
+        for k in range(2):
+            c = Case(rng, f"s{ci}", dict(plain_feat, depth=rng.choice([1, 2]), meta_modes=["bij", "bij", "none"]))
+            ty = {"dc": c.gen_class(0)}
+            if c.stats.get("meta-collide"):
+                break
+            subs.append({"decls": c.decls, "ty": ty, "json": c.gen_conf(ty)})
+        if len(subs) == 2 and subs[0]["ty"] == subs[1]["ty"] and subs[0]["decls"] != subs[1]["decls"]:
+            cases.append({"prop": "same_name_twice", "decls": [], "ty": None, "first": subs[0], "second": subs[1]})
     # 5. the serializer
     for ci in range(max(3, int(round(160 * scale)))):
         feat = dict(plain_feat, depth=rng.choice([1, 2]), bad_leaf=rng.choice([0.0, 0.0, 0.1]))
